@@ -75,6 +75,7 @@ def run(ctx):
     n3 = rule_param_mutation(ctx, repo, mods, "R-C15-3")
     n4 = rule_module_state(ctx, repo, [m for n, m in sorted(repo.modules.items()) if in_scope(n) or n in ("mingus.extra.tunings",)], "R-C15-4")
     rule_copies(ctx, repo)
+    rule_stored_once(ctx, repo)
     rule_accelerator(ctx, repo)
     rule_fixtures(ctx)
     ctx.floor("R-C15-1", 7)
@@ -437,6 +438,59 @@ def rule_copies(ctx, repo):
         paths = explore(lambda ch: Interp(repo, ch), twice)
         ok = len(paths) == 1 and paths[0].kind == "return" and isinstance(paths[0].value[0], dict) and paths[0].value[0] is not paths[0].value[1]
         ctx.check(ok, R, "Note.dynamics", dyn.where(), "Note.dynamics", "the dynamics dictionary handed out must be a fresh object on every access")
+
+
+def rule_stored_once(ctx, repo):
+    """Entry points that hand one argument to several containers (Composition.add_note over the selected tracks,
+    Track.from_chords over bar lines): run on the real classes; no Bar, NoteContainer or Note object may end up
+    reachable from two tracks / two entries."""
+    R = "R-C15-5"
+    NC, NOTE, TR, BAR, COMP = ("mingus.containers.note_container", "mingus.containers.note", "mingus.containers.track", "mingus.containers.bar", "mingus.containers.composition")
+    nci, noteci, tci, bci, cci = repo.mod(NC).cls("NoteContainer"), repo.mod(NOTE).cls("Note"), repo.mod(TR).cls("Track"), repo.mod(BAR).cls("Bar"), repo.mod(COMP).cls("Composition")
+    f = repo.find_method(cci, "add_note")
+
+    def new(it, c, *args):
+        return it.call(AClass(c), list(args), {}, None)
+
+    def reach(track):
+        objs = []
+        for b in track.attrs["bars"]:
+            objs.append(b)
+            for e in b.attrs["bar"]:
+                if isinstance(e[2], AObj):
+                    objs.append(e[2])
+                    objs.extend(n for n in e[2].attrs.get("notes", []) if isinstance(n, AObj))
+        return objs
+    for label, mkitem in (("NoteContainer", lambda it: new(it, nci, ["D", "F"])), ("Note", lambda it: new(it, noteci, "E", 4)), ("Bar with a chord", None), ("list of Notes", lambda it: [new(it, noteci, "C", 4), new(it, noteci, "G", 4)])):
+        def go(it, mkitem=mkitem):
+            c = new(it, cci)
+            ts = [new(it, tci) for _ in range(3)]
+            for t in ts:
+                it.call_method(c, "add_track", [t], {}, None)
+            c.attrs["selected_tracks"] = [0, 1, 2]
+            if mkitem is None:
+                b = new(it, bci, "C", (4, 4))
+                it.call_method(b, "place_notes", [["C", "E"], 4], {}, None)
+                item = b
+            else:
+                item = mkitem(it)
+            it.call_method(c, "add_note", [item], {}, None)
+            return [reach(t) for t in ts]
+        try:
+            ps = explore(lambda ch: Interp(repo, ch, max_depth=60, max_iter=5000), go)
+        except CannotDecide as e:
+            raise AnalysisError("Composition.add_note(<%s>) to three tracks: %s" % (label, e))
+        ok, why = len(ps) == 1 and ps[0].kind == "return", "outcome %s" % [(p.kind, short(repr(p.value), 60)) for p in ps]
+        if ok:
+            rs = ps[0].value
+            if any(not r for r in rs):
+                ok, why = False, "a selected track holds nothing after add_note"
+            for i in range(3):
+                for j in range(i + 1, 3):
+                    both = [o for o in rs[i] if any(o is o2 for o2 in rs[j])]
+                    if ok and both:
+                        ok, why = False, "tracks %d and %d both hold the same %s object: editing one track's music edits the other's" % (i, j, both[0].cls.name if both[0].cls else "object")
+        ctx.check(ok, R, "add_note.stored-once[%s]" % label, f.where(), "Composition.add_note(<%s>) with three tracks selected" % label, why)
 
 
 # ------------------------------------------------------------------------------ R-C15-6
